@@ -46,11 +46,19 @@ def status_full(pid, state="S (sleeping)"):
             "voluntary_ctxt_switches:\t10\nnonvoluntary_ctxt_switches:\t2\n" % (state, pid, pid)).encode()
 
 
-def files_for(pid, stat_bytes, zombie):
-    """relative name -> bytes (regular file) | ("link", target) | ("dir", {…})"""
+LIGHT = ("stat", "status", "statm", "cmdline", "environ", "io", "cwd")
+
+
+def files_for(pid, stat_bytes, zombie, keep_content=False, light=False):
+    """relative name -> bytes (regular file) | ("link", target) | ("dir", {…}); `keep_content`: a zombie keeps the
+    content of a live process in every entry but stat / status (what its entries GIVE is then decided per access by
+    the hook of harness/props/c04_scan.py); `light`: only the regular files and the cwd link"""
+    state = "Z (zombie)" if zombie else "S (sleeping)"
+    if keep_content:
+        zombie = False
     f = {
         "stat": stat_bytes,
-        "status": status_full(pid, "Z (zombie)" if zombie else "S (sleeping)"),
+        "status": status_full(pid, state),
         "statm": b"250 25 10 1 0 20 0\n",
         "cmdline": b"" if zombie else b"/usr/bin/p\x00--flag\x00",
         "environ": b"" if zombie else b"A=1\x00B=two\x00",
@@ -63,6 +71,8 @@ def files_for(pid, stat_bytes, zombie):
         "fdinfo": ("dir", {"0": b"pos:\t0\nflags:\t0100002\nmnt_id:\t1\n", "3": b"pos:\t0\nflags:\t02\nmnt_id:\t1\n"}),
         "task": ("dir", {str(pid): ("dir", {"stat": stat_bytes})}),
     }
+    if light:        # only the entries the getters of harness/props/c04_scan.py read
+        f = {k: v for k, v in f.items() if k in LIGHT}
     return f
 
 
